@@ -727,3 +727,60 @@ fn c10_loader_malformed_images() {
     kani::assert(r.is_ok() && undisturbed_except_af(&b, &a), "c10.malformed.stray_byte_after_block_is_no_block");
     kani::cover!(!o.carry && de1 == 5 && o.nstores == 1, "all four images");
 }
+
+// ---- lead: C16 - a breakpoint stop exactly at the loader trap must not change the result -------------
+
+// @harness
+// @prop C16 C10
+// @tier quick
+// @timeout 900
+// @fn Emulator::emulate_frames; ZXController::pc_callback (both events raised by one callback); ZXController::take_events; Emulator::process_fast_load_event; fast_load_tap; Emulator::set_debug_interface
+// @sym one-block tape (3 arbitrary bytes); LOAD request with arbitrary A', DE in 0..=5; a debug interface with an arbitrary breakpoint address (so also exactly the trap address 0x056B) enabled or not
+// @assert host independence: with or without a breakpoint stop at the instruction that reaches the tape trap, the fast load happens in that same step with the same registers and memory (LD-BYTES model); the only difference allowed is the stop reason reported to the host
+// @bound one CPU step; unwind 9
+// @stub Z80::emulate -> "PC := LD-BREAK, a frame of T-states passes, pc_callback(PC)"; ZXScreen::process_clocks -> no-op
+// @replay solver-only
+#[kani::proof]
+#[kani::unwind(9)]
+#[kani::stub(rustzx_z80::Z80::emulate, emulate_arrives_at_ld_break)]
+#[kani::stub(crate::zx::video::screen::ZXScreen::process_clocks, noop_screen_clocks)]
+fn c16_breakpoint_at_tape_trap_does_not_change_the_load() {
+    let buf = image(&[3]);
+    let mut e = emulator_with_tape(K48, buf);
+    e.set_fast_load(true);
+    let bp: u16 = kani::any();
+    let with_dbg: bool = kani::any();
+    if with_dbg {
+        e.set_debug_interface(crate::verif_hooks::VDbg { bp, enabled: true });
+    }
+    let (a_req, de, ret): (u8, u16, u16) = (kani::any(), kani::any(), kani::any());
+    kani::assume(de <= 5);
+    at_trap(&mut e, kani::any(), a_req, S_FLAG_C, 0x8000, de, ret);
+    let mut mem = [0u8; 6];
+    let mut k = 0;
+    while k < 6 {
+        mem[k] = kani::any();
+        emu::controller(&mut e).memory.force_write(0x8000 + k as u16, mem[k]);
+        k += 1;
+    }
+    let r = e.emulate_frames(Duration::from_millis(20));
+    let hit = with_dbg && bp == S_LD_BREAK;
+    match r {
+        Ok(info) => {
+            kani::assert((info.stop_reason == crate::EmulationStopReason::Breakpoint) == hit, "c16.trap_bp.stop_reason_reports_breakpoint");
+        }
+        Err(_) => kani::assert(false, "c16.trap_bp.ok"),
+    }
+    let v = cpu_view(&mut e);
+    let o = ld_bytes_model(a_req, S_FLAG_C, 0x8000, de, &buf.data[2..5], &mem);
+    kani::assert(v.ix == o.ix && v.de == o.de && (v.af as u8 & S_FLAG_C != 0) == o.carry, "c16.trap_bp.fast_load_performed_regardless_of_breakpoint");
+    kani::assert(v.pc == ret, "c16.trap_bp.returned_to_caller");
+    let mut k = 0;
+    while k < 6 {
+        let addr = 0x8000 + k as u16;
+        kani::assert(e.peek(addr) == model_mem_after(&o, addr, mem[k]), "c16.trap_bp.memory");
+        k += 1;
+    }
+    kani::cover!(hit && o.carry, "breakpoint exactly at the trap, successful load");
+    kani::cover!(with_dbg && !hit, "breakpoint elsewhere");
+}
